@@ -151,7 +151,7 @@ FieldOwners(rest, alt, isResize) ==
   \cup (IF rest \cap {"saved", "asaved"} # {} THEN {"C17"} ELSE {})
   \cup (IF rest \cap {"other.lines", "other.cols", "other.rows", "other.lim"} # {} THEN {"C16"} ELSE {})
   \cup (IF isResize /\ rest \cap {"top", "bottom"} # {} THEN {"C05", "C06"} ELSE {})
-  \cup (IF isResize /\ rest \cap {"buf.lines", "col", "row", "pw", "buf.cols", "buf.rows"} # {} THEN (IF alt THEN {"C16"} ELSE {"C10"}) ELSE {})
+  \cup (IF isResize /\ ~alt /\ rest \cap {"buf.lines", "col", "row", "pw", "buf.cols", "buf.rows"} # {} THEN {"C10"} ELSE {})
   \cup (IF isResize /\ rest \cap {"cols", "rows"} # {} THEN {"C02"} ELSE {})
 (* Components the properties leave free are not compared by equality: the dirty   *)
 (* flags / changed-line set (C15 demands soundness only), the trim_needed flags    *)
@@ -184,6 +184,15 @@ Silence(pre, fn, x) ==
 
 Normal(t, dr) == [t EXCEPT !.buf.lines = dr \o @, !.buf.trim = FALSE, !.other.trim = FALSE, !.dirty = <<>>]
 ViewNormal(t) == [t EXCEPT !.buf.lines = View(t.buf), !.buf.trim = FALSE, !.other.trim = FALSE, !.dirty = <<>>]
+(* blame of a one-function step, by function AND diverging component              *)
+CtxLeaves == {"col", "row", "pw", "pen", "origin", "autowrap", "saved", "asaved"}
+FnBlame(pre, fn, leaves) ==
+  LET f == fn.f IN
+  IF f \in {"Lf", "Nel", "Ri"} THEN (IF IsScrollingStep(pre, fn) THEN {"C06"} ELSE {"C05"})
+  ELSE IF f \in {"Decset", "Decrst"} /\ \E i \in 1..Len(fn.a) : fn.a[i] = 1049
+       THEN (IF leaves \cap CtxLeaves # {} THEN {"C16", "C17"} ELSE {}) \cup (IF leaves \ CtxLeaves # {} THEN {"C16"} ELSE {})
+            \cup UNION {DecModeOwner(fn.a[i]) : i \in {j \in 1..Len(fn.a) : fn.a[j] # 1049}}
+  ELSE Owner(fn)
 Conformance(ll, what, r, fns, e, own) ==
   LET cur == e.st
       a == IF e.consumed THEN Normal(r.vt.t, r.dr) ELSE ViewNormal(r.vt.t)
@@ -193,9 +202,10 @@ Conformance(ll, what, r, fns, e, own) ==
       okT == a = b \/ silent
       okP == r.vt.p = cur.p
       leaves == IF okT THEN {} ELSE Leaves(a, b)
-      blame ==    (IF leaves # {} THEN own \cup FieldOwners(leaves, cur.t.alt, what = "rs") ELSE {})
+      own2 == IF Len(fns) = 1 /\ what # "rs" THEN FnBlame(e.pre, fns[1], leaves) ELSE own
+      blame ==    (IF leaves # {} THEN own2 \cup FieldOwners(leaves, cur.t.alt, what = "rs") ELSE {})
               \cup (IF okP THEN {} ELSE {"C03"})
-              \cup (IF okSb \/ what = "rs" THEN {} ELSE own)
+              \cup (IF okSb \/ what = "rs" THEN {} ELSE own2)
       detail == " fns=" \o S(FnNames(fns))
                 \o (IF okT THEN "" ELSE " tdiff=" \o S(leaves))
                 \o (IF okP THEN "" ELSE " parser: spec=" \o ToJson(r.vt.p) \o " impl=" \o ToJson(cur.p))
